@@ -212,6 +212,8 @@ class Parser:
             return B.And(*(list(imp + imp2) + [f]))
         if k == "call":
             # total orders: lt / le are written as the negation of ge / gt (the code side is normalised the same way)
+            if a.startswith("HashMap::contains_key(") and a.endswith(")"):
+                return B.And(*(list(imp) + [B.atom("is(HashMap::get(" + a[len("HashMap::contains_key("):] + "; Some)")]))
             if a.startswith("PartialOrd::lt("):
                 return B.And(*(list(imp) + [B.Not(B.atom("PartialOrd::ge(" + a[len("PartialOrd::lt("):]))]))
             if a.startswith("PartialOrd::le("):
